@@ -378,7 +378,8 @@ def binopOk (cs : Bool) (op : BinOp) (l r : Operand) (t : Ty) : Bool :=
     (ptrToCompleteObject l.ty && isIntegerT r.ty && t == l.ty) ||
     (match l.ty, r.ty with
      | .ptr _ lb, .ptr _ rb =>
-       ptrToCompleteObject l.ty && compatible lb rb && t == .arith (.basic ptrdiffT)
+       -- 6.5.6p3: both point to (qualified or unqualified versions of) compatible complete object types
+       ptrToCompleteObject l.ty && ptrToCompleteObject r.ty && compatible lb rb && t == .arith (.basic ptrdiffT)
      | _, _ => false)
   -- 6.5.7: integer operands; "the type of the result is that of the promoted left operand"
   | .shl | .shr =>
